@@ -30,7 +30,7 @@ def run(ctx):
             for g in range(8):
                 for lm in range(8):
                     prog.append({"op": "copy", "a": {"entry": e, "n": n, "gmod": g, "lmod": lm}})
-    events = run_harness("copyw", prog, os.path.join(WORK, "copyw.ev.ndjson"))
+    events = run_harness("copyw", prog, os.path.join(WORK, "copyw.ev.ndjson"), ctx=ctx)
     singles = sum(1 for e in events if e["a"]["n"] in (1, 2, 4, 8) and e["r"]["gres"] % e["a"]["n"] == 0 and e["r"]["lres"] % e["a"]["n"] == 0
                   and e["a"]["entry"] not in ATOM)
     if singles < 100:
